@@ -6,6 +6,9 @@ ids = [json.loads(l)["id"] for l in open(os.path.join(HERE, "properties.jsonl"))
 
 # id -> (technique, level text, level note, design ref)
 CLAIMED = {
+ "C01": ("proptest: differential of every accelerated search path (find_all, kind caches, CombinedScan, non-reentrant Visitor/replace_all, CLI run/scan with file prefilter and injected documents) against brute-force per-node matching and the O-eval reference model",
+         "Randomised exploration: 10^4-10^5 generated (source, matcher set) cases per run in the library stage (all languages, all strictness levels, ERROR-rooted and contextual patterns, rule trees with utilities, 1-5 rules scanned together) plus hundreds to thousands of real CLI invocations over generated file trees; accelerated results must equal the brute-force list in document order.",
+         "Trusted: Pattern::match_node on a single node as the per-node reference for patterns (C02/C03 decide it); O-eval for rules; serde_json for CLI output.", "DESIGN.md §5 C01"),
  "C02": ("proptest: patterns cut from generated code (holes/trailing runs) with an independent shape precondition; oracle = exact expected bindings by construction (round-trip of abstraction)",
          "Randomised exploration over all 23 languages and 5 strictness levels: tens of thousands of (node, hole set, trailing run) cases per run whose pattern re-parses to the shape of the code; each must match its origin and bind every hole to exactly the replaced span.",
          "Trusted: tree-sitter parse of pattern and code; the shape precondition is evaluated by the harness's own tree comparison; cases failing it are discarded and counted.", "DESIGN.md §5 C02"),
